@@ -51,10 +51,7 @@ def rng(tag=""):
 
 # --------------------------------------------------------------------------- translators
 
-TRANSLATORS = {
-    # name: (module, source file under src/halmos, output file under coq/Gen)
-    "T-opcodes": ("translate.t_opcodes", "contract.py", "GenOpcodes.v"),
-}
+TRANSLATORS = {}  # name -> (module, source file under src/halmos, output file under coq/Gen); see registry.py
 
 
 def register_translator(name, module, src, out):
@@ -179,13 +176,13 @@ def parse_assumptions(log):
     return res
 
 
-def build_property(pid, extra_targets=()):
+def build_property(pid, translators=None, extra_targets=()):
     """Regenerate Gen, build Props/<pid>.vo (always recompiling the Props file itself so
     that Print Assumptions output is captured).  Returns a dict describing each
     obligation."""
     out = {"translators": [], "make_ok": False, "make_log": "", "lint": [], "theorems": [], "assumptions": []}
     with build_lock():
-        for name in TRANSLATORS:
+        for name in (TRANSLATORS if translators is None else translators):
             out["translators"].append(run_translator(name))
         props = COQ / "Props" / f"{pid}.v"
         for ext in (".vo", ".glob", ".vos", ".vok"):
